@@ -26,7 +26,7 @@ BUILTIN_NAMES = {
     "list", "tuple", "isinstance", "ord", "chr", "divmod", "bool", "any", "all", "sorted", "iter", "next",
     "ceil", "floor", "sqrt", "hash", "getattr", "cast", "dict", "set", "print", "repr", "hasattr", "callable", "super",
 }
-SPEC_BUILTINS = {"old", "acq", "implies", "cells", "width_of", "lsum", "fresh_result", "is_ref", "seq_eq", "iff", "ite", "prefix_pad", "char_at", "count_true"}
+SPEC_BUILTINS = {"old", "acq", "line_cells", "implies", "cells", "width_of", "lsum", "fresh_result", "is_ref", "seq_eq", "iff", "ite", "prefix_pad", "char_at", "count_true"}
 
 
 class CallMixin:
@@ -891,11 +891,14 @@ class CallMixin:
             cands.append((seqs.W(p.a[p.lo + k]), seqs.pcell(p.a, p.hi) - seqs.pcell(p.a, p.lo)))
         elif vs.elem == INT:
             cands.append((p.a[p.lo + k], seqs.psum(p.a, p.hi) - seqs.psum(p.a, p.lo)))
+        elif vs.elem.kind == "rec" and vs.elem.name == "Segment":
+            uf, measure = self.segcells()
+            cands.append((measure(p.a[p.lo + k]), uf(p.a, p.hi) - uf(p.a, p.lo)))
         for pointwise, total in cands:
             sol = z3.Solver()
             sol.set("timeout", 3000)
             ax = seqs.global_axioms()
-            for nm in ("W.range", "W.ascii"):
+            for nm in ("W.range", "W.ascii", "pcell.mono"):
                 sol.add(ax[nm])
             for f in self.global_facts:
                 sol.add(f)
